@@ -20,6 +20,9 @@ type c06Step struct {
 	S      *core.StructSpec `json:"s,omitempty"`
 	Msg    []byte           `json:"msg,omitempty"`
 	Target int              `json:"target,omitempty"`
+	// Msg2: another message for the same type; op "redecode" decodes it into the destination of an
+	// earlier decode step, of which the caller has kept a (shallow) copy
+	Msg2 []byte `json:"msg2,omitempty"`
 }
 
 type c06Case struct {
@@ -39,7 +42,7 @@ func genC06(t *rapid.T) c06Case {
 	n := rapid.IntRange(4, 14).Draw(t, "nsteps")
 	var pool []*core.StructSpec
 	for i := 0; i < n; i++ {
-		op := rapid.SampledFrom([]string{"decode", "decode", "decode", "clobber", "gc", "gc", "drop", "garbage", "burst"}).Draw(t, "op")
+		op := rapid.SampledFrom([]string{"decode", "decode", "decode", "clobber", "gc", "gc", "drop", "garbage", "burst", "redecode"}).Draw(t, "op")
 		st := c06Step{Op: op, Target: rapid.IntRange(0, 7).Draw(t, "target")}
 		if op == "decode" {
 			var s *core.StructSpec
@@ -52,6 +55,10 @@ func genC06(t *rapid.T) c06Case {
 			v := core.GenStructVal(t, cfg, s)
 			st.S = s
 			st.Msg, _ = genWireMsg(t, s, v, wireEditCfg{Shuffle: true, Insert: true, Dup: true, MaxInsert: 2})
+			if rapid.Bool().Draw(t, "withmsg2") {
+				v2 := core.GenStructVal(t, cfg, s)
+				st.Msg2, _ = genWireMsg(t, s, v2, wireEditCfg{Shuffle: true, Insert: true, MaxInsert: 2})
+			}
 			if rapid.IntRange(0, 5).Draw(t, "cut") == 0 && len(st.Msg) > 1 {
 				// a message that ends early, at the end of some value inside it or anywhere: the call fails
 				// after it has stored part of the object
@@ -194,6 +201,8 @@ type liveObj struct {
 	clobbered bool
 	// the decode failed: only the stability of what it left behind is checked
 	failed bool
+	// the object is the result of two decodes into one destination (not a function of one message)
+	twice bool
 }
 
 func overlapIn(ext []extent) (extent, extent, bool) {
@@ -217,6 +226,7 @@ func runC06(w *worker) func(c c06Case) *Failure {
 		clobberedThenGC := false
 		clobbered := false
 		failedKept := 0
+		redecoded := 0
 		check := func(stepNo int, what string) *Failure {
 			var all []extent
 			for _, o := range live {
@@ -306,7 +316,7 @@ func runC06(w *worker) func(c c06Case) *Failure {
 					break
 				}
 				src := live[st.Target%len(live)]
-				if src.failed {
+				if src.failed || src.twice {
 					break
 				}
 				msg := c.Steps[src.step].Msg
@@ -343,6 +353,50 @@ func runC06(w *worker) func(c c06Case) *Failure {
 						live = live[1:]
 					}
 					nExt += len(last.ext)
+				}
+			case "redecode":
+				// an object is recycled: the caller keeps a copy of the struct (and so of everything the first
+				// decode created for it) and decodes another message into the same destination. What the
+				// second call creates is memory of its own: the kept copy must go on reading as before,
+				// and new pieces must not overlap old ones
+				if len(live) == 0 {
+					break
+				}
+				src := live[st.Target%len(live)]
+				msg2 := c.Steps[src.step].Msg2
+				if src.failed || src.twice || msg2 == nil || src.spec.AnyNoCopy() {
+					break
+				}
+				kept := reflect.New(src.dest.Elem().Type())
+				kept.Elem().Set(src.dest.Elem())
+				dest := src.dest
+				src.dest = kept // the live entry now stands for the caller's copy
+				in := append(make([]byte, 0, len(msg2)), msg2...)
+				_, err, f := fDecode(in, dest.Interface())
+				if f != nil {
+					return f
+				}
+				o := &liveObj{spec: src.spec, b: src.b, dest: dest, in: in, step: src.step, failed: err != nil, twice: true}
+				if f := safely("reading a destination decoded into twice", func() { o.snap = o.b.Lift(dest.Elem()) }); f != nil {
+					return f
+				}
+				if err == nil {
+					var ext []extent
+					collectExtents(src.spec, dest.Elem(), "$", &ext)
+					old := map[[2]uintptr]bool{}
+					for _, e := range src.ext {
+						old[[2]uintptr{e.lo, e.hi}] = true
+					}
+					for _, e := range ext {
+						if !old[[2]uintptr{e.lo, e.hi}] { // pieces the second message did not replace are the first decode's
+							o.ext = append(o.ext, e)
+						}
+					}
+				}
+				redecoded++
+				live = append(live, o)
+				if len(live) > 6 {
+					live = live[1:]
 				}
 			case "clobber":
 				if len(live) > 0 {
@@ -399,6 +453,9 @@ func runC06(w *worker) func(c c06Case) *Failure {
 		}
 		if failedKept > 0 {
 			labels = append(labels, "destination-of-failed-decode-kept")
+		}
+		if redecoded > 0 {
+			labels = append(labels, "second-decode-into-a-destination-whose-copy-is-kept")
 		}
 		w.count(nontriv, key, map[string]interface{}{"history": ops, "extents": nExt}, labels...)
 		return nil
